@@ -127,7 +127,7 @@ def main():
     rep = vlib.Report("C04")
     cov = {"states": 0, "transitions": 0, "traces_validated_against_impl": 0, "samples": [], "tlc_runs": []}
     rng = random.Random(vlib.SEED)
-    big = ["Expr2", "Stmt2", "Types3", "Fb2", "Sfc3", "Config3"] if tier == "quick" else ["Expr3", "Stmt3", "Types4", "Fb3", "Prog3", "Func3", "Sfc4", "Config4"]
+    big = ["Expr2", "Stmt2", "Types3", "Fb2", "Func2", "Prog2", "FbS3", "FuncS3", "ProgS3", "ConfigS5", "Sfc3", "Config3"] if tier == "quick" else ["Expr3", "Stmt3", "Types4", "Fb3", "Prog3", "Func3", "Sfc4", "Config4"]
     small = ["Expr1", "Stmt1", "Types2", "Fb1", "Sfc2", "Config2"]
     lit_pool = ThreadPoolExecutor(max_workers=1)
     lit_cfgs = ["int", "real", "dur", "time", "text"]
@@ -141,6 +141,10 @@ def main():
         for _ in range(k):
             t, kind = mutate(d["toks"], rng)
             inputs.append(("mutant:" + kind, gram.spell(t)[0]))
+    # the valid sentences themselves (every stage incl. rendering): all of the shape configurations, a third of the rest
+    for n_, d in enumerate(ds_big):
+        if n_ % 3 == 0 or any(l in ("in:redge", "in:fedge", "progconf:elems", "q:retain", "q:non_retain", "q:constant") for l in d["labs"]):
+            inputs.append(("valid", gram.spell(d["toks"])[0]))
     for d in ds_small:
         inputs.append(("valid", gram.spell(d["toks"])[0]))
         for i in range(len(d["toks"])):
